@@ -151,7 +151,17 @@ defjvp(
 
 # ----- Trickier grads -----
 defjvp(anp.kron, "same", "same")
-defjvp(anp.diff, "same")
+
+
+def fwd_grad_diff(g, ans, a, n=1, axis=-1, *ends, **kw_ends):
+    # The values given as prepend / append are constants of the differentiation:
+    # what is prepended / appended to the tangent is zero, not those values.
+    zero_ends = [anp.zeros_like(end) for end in ends]
+    zero_kw_ends = {name: anp.zeros_like(end) for name, end in kw_ends.items()}
+    return anp.diff(g, n, axis, *zero_ends, **zero_kw_ends)
+
+
+defjvp(anp.diff, fwd_grad_diff)
 defjvp(anp.gradient, "same")
 defjvp(anp.repeat, "same")
 defjvp(anp.tile, "same")
